@@ -56,6 +56,21 @@ def writeCalls (c : Codec) (p : Pkt) : List Bytes :=
   else if (wireBody c p).isEmpty then [[UInt8.ofNat t], be32 (wireBody c p).length]
   else [[UInt8.ofNat t], be32 (wireBody c p).length, wireBody c p]
 
+/-- Successive pieces of at most `n` bytes (fuel `f`). -/
+def pieces (n : Nat) : Nat → Bytes → List Bytes
+  | 0, _ => []
+  | _ + 1, [] => []
+  | f + 1, b :: bs => (b :: bs).take n :: pieces n f ((b :: bs).drop n)
+
+/-- The `writer.Write` calls of `WritePacket` with a rate limit (`rateLimitBytesPerSecond > 0`): the
+body goes through `writeRateLimitedData`, whose `RateLimiterWriter.Write` passes on at most
+`DefaultChunkSize` bytes per call (after waiting for that many tokens; the wait only delays). -/
+def writeCallsLimited (c : Codec) (p : Pkt) : List Bytes :=
+  let t := wireType p
+  if packet.Type.IsHeartbeat t then [[UInt8.ofNat t]]
+  else [[UInt8.ofNat t], be32 (wireBody c p).length] ++
+    pieces constants.DefaultChunkSize (wireBody c p).length (wireBody c p)
+
 /-! ### Concurrent writers
 
 `WritePacket` holds `writeLock` from before its first `writer.Write` until after its last one
